@@ -160,3 +160,123 @@ Qed.
 (* the constant profile is the fixed point of a step with constant data *)
 Lemma step_fixed_point n K g : Sys n K (fun _ => g) (fun _ => g) g.
 Proof. split; [reflexivity|]. split; [reflexivity|]. intros j Hj. unfold Row. lra. Qed.
+
+(* ---- monotonicity in time for a constant-coefficient step (ideal reservoir) ----
+   If the data Bx (ghost-extended: Bx 0 = g = 0, Bx (n+1) = Bx n) are discretely superharmonic,
+   2 Bx j >= Bx (j-1) + Bx (j+1), then the new level lies below the data and is superharmonic again.
+   D = Bx - U solves a step system of the same kind with right-hand side r * (2 Bx j - ...) >= 0. *)
+Lemma step_time_monotone n r K B Bx U : (1 <= n)%nat -> 0 <= r ->
+  (forall j, (1 <= j <= n)%nat -> K j = r) -> Sys n K B U 0 ->
+  Bx 0%nat = 0 -> Bx (S n) = Bx n -> (forall j, (1 <= j <= n)%nat -> Bx j = B j) ->
+  (forall j, (1 <= j <= n)%nat -> 0 <= 2 * Bx j - Bx (j-1)%nat - Bx (j+1)%nat) ->
+  (forall j, (j <= S n)%nat -> U j <= Bx j) /\
+  (forall j, (1 <= j <= n)%nat -> 0 <= 2 * U j - U (j-1)%nat - U (j+1)%nat).
+Proof.
+  intros Hn Hr HK HS B0 Bn BB HL.
+  pose proof HS as [U0 [Um Urow]].
+  set (D := fun j => Bx j - U j).
+  set (Rr := fun j => r * (2 * Bx j - Bx (j-1)%nat - Bx (j+1)%nat)).
+  assert (HKn : forall j, (1 <= j <= n)%nat -> 0 <= K j) by (intros j Hj; rewrite HK by exact Hj; exact Hr).
+  assert (SD : Sys n K Rr D 0).
+  { split; [unfold D; lra|]. split; [unfold D; lra|].
+    intros j Hj. pose proof (Urow j Hj) as E. unfold Row in *. unfold D, Rr.
+    rewrite (HK j Hj) in *. rewrite <- (BB j Hj) in E. lra. }
+  assert (HD : forall j, (j <= S n)%nat -> 0 <= D j).
+  { apply (step_lower n Hn K Rr D 0 HKn SD 0 (Rle_refl 0)).
+    intros j Hj. unfold Rr. apply Rmult_le_pos; [exact Hr|apply HL; exact Hj]. }
+  split.
+  - intros j Hj. specialize (HD j Hj). unfold D in HD. lra.
+  - intros j Hj. pose proof (Urow j Hj) as E. unfold Row in E. rewrite (HK j Hj), <- (BB j Hj) in E.
+    destruct (Rle_lt_or_eq_dec _ _ Hr) as [Hpos|Hz].
+    + pose proof (HD j ltac:(lia)) as Dj. unfold D in Dj.
+      assert (0 <= r * (2 * U j - U (j-1)%nat - U (j+1)%nat)) by lra.
+      destruct (Rle_dec 0 (2 * U j - U (j-1)%nat - U (j+1)%nat)) as [Hok|Hno]; [exact Hok|exfalso].
+      apply Rnot_le_lt in Hno.
+      assert (0 < r * - (2 * U j - U (j-1)%nat - U (j+1)%nat)) by (apply Rmult_lt_0_compat; lra).
+      lra.
+    + (* r = 0: the step is the identity *)
+      assert (EU : forall i, (i <= S n)%nat -> U i = Bx i).
+      { intros i Hi. destruct (Nat.eq_dec i 0) as [->|Hi0]; [lra|].
+        destruct (Nat.eq_dec i (S n)) as [->|Hin].
+        - rewrite Um, Bn. pose proof (Urow n ltac:(lia)) as En. unfold Row in En.
+          rewrite (HK n ltac:(lia)), <- Hz, <- (BB n ltac:(lia)) in En. lra.
+        - pose proof (Urow i ltac:(lia)) as Ei. unfold Row in Ei.
+          rewrite (HK i ltac:(lia)), <- Hz, <- (BB i ltac:(lia)) in Ei. lra. }
+      rewrite (EU j ltac:(lia)), (EU (j-1)%nat ltac:(lia)), (EU (j+1)%nat ltac:(lia)). apply HL; exact Hj.
+Qed.
+
+(* ---- relaxation to the frac-face value, whatever the step size ----
+   Barrier phi j = j (2n+1-j): phi 0 = 0, phi (n+1) = phi n, second difference -2.  If the data exceed g by
+   at most C phi j, the new level exceeds g by at most rho C phi j with
+   rho = n(n+1) / (n(n+1) + 2 kappa) < 1, kappa a lower bound of the coefficients (mesh ratio times
+   diffusivity); rho -> 0 as the time step grows. *)
+Definition phi (n j : nat) : R := INR j * (2 * INR n + 1 - INR j).
+Definition phimax (n : nat) : R := INR n * (INR n + 1).
+Definition relax_factor (n : nat) (kap : R) : R := phimax n / (phimax n + 2 * kap).
+
+Lemma phi_0 n : phi n 0 = 0.
+Proof. unfold phi. simpl. ring. Qed.
+Lemma phi_mirror n : phi n (S n) = phi n n.
+Proof. unfold phi. rewrite S_INR. ring. Qed.
+Lemma phi_second_difference n j : (1 <= j)%nat -> phi n (j-1) - 2 * phi n j + phi n (j+1) = - 2.
+Proof.
+  intros Hj. unfold phi. rewrite minus_INR by exact Hj. rewrite plus_INR. simpl. ring.
+Qed.
+Lemma phi_bounds n j : (j <= n)%nat -> 0 <= phi n j <= phimax n.
+Proof.
+  intros Hj. unfold phi, phimax. pose proof (pos_INR j). apply le_INR in Hj. split; nra.
+Qed.
+Lemma phimax_pos n : (1 <= n)%nat -> 0 < phimax n.
+Proof. intros H. apply le_INR in H. simpl in H. unfold phimax. nra. Qed.
+Lemma relax_factor_bounds n kap : (1 <= n)%nat -> 0 <= kap -> 0 < relax_factor n kap <= 1.
+Proof.
+  intros Hn Hk. pose proof (phimax_pos n Hn). unfold relax_factor. split.
+  - apply Rdiv_lt_0_compat; lra.
+  - apply Rmult_le_reg_r with (phimax n + 2 * kap); [lra|].
+    unfold Rdiv. rewrite Rmult_assoc, Rinv_l by lra. lra.
+Qed.
+Lemma relax_factor_lt_1 n kap : (1 <= n)%nat -> 0 < kap -> relax_factor n kap < 1.
+Proof.
+  intros Hn Hk. pose proof (phimax_pos n Hn). unfold relax_factor.
+  apply Rmult_lt_reg_r with (phimax n + 2 * kap); [lra|].
+  unfold Rdiv. rewrite Rmult_assoc, Rinv_l by lra. lra.
+Qed.
+
+Lemma step_relax n K B U g kap C : (1 <= n)%nat ->
+  0 <= kap -> (forall j, (1 <= j <= n)%nat -> kap <= K j) -> Sys n K B U g -> 0 <= C ->
+  (forall j, (1 <= j <= n)%nat -> B j - g <= C * phi n j) ->
+  forall j, (j <= S n)%nat -> U j - g <= relax_factor n kap * C * phi n j.
+Proof.
+  intros Hn Hk HK HS HC HB.
+  pose proof HS as [U0 [Um Urow]].
+  set (rho := relax_factor n kap).
+  destruct (relax_factor_bounds n kap Hn Hk) as [Hrho0 Hrho1]. fold rho in Hrho0, Hrho1.
+  set (W := fun j => rho * C * phi n j - (U j - g)).
+  set (Rr := fun j => rho * C * (phi n j + 2 * K j) - (B j - g)).
+  assert (HKn : forall j, (1 <= j <= n)%nat -> 0 <= K j) by (intros j Hj; specialize (HK j Hj); lra).
+  assert (SW : Sys n K Rr W 0).
+  { split; [unfold W; rewrite phi_0, U0; ring|]. split; [unfold W; rewrite phi_mirror, Um; ring|].
+    intros j Hj. pose proof (Urow j Hj) as E. unfold Row in *. unfold W, Rr.
+    pose proof (phi_second_difference n j ltac:(lia)) as P.
+    replace (rho * C * phi n (j - 1) - (U (j - 1)%nat - g) - 2 * (rho * C * phi n j - (U j - g))
+             + (rho * C * phi n (j + 1) - (U (j + 1)%nat - g)))
+      with (rho * C * (phi n (j-1) - 2 * phi n j + phi n (j+1)) - (U (j-1)%nat - 2 * U j + U (j+1)%nat)) by ring.
+    rewrite P. lra. }
+  assert (HR : forall j, (1 <= j <= n)%nat -> 0 <= Rr j).
+  { intros j Hj. unfold Rr. specialize (HB j Hj). specialize (HK j Hj).
+    destruct (phi_bounds n j ltac:(lia)) as [Hp0 Hp1]. pose proof (phimax_pos n Hn) as Hpm.
+    assert (Hkey : phi n j <= rho * (phi n j + 2 * K j)).
+    { unfold rho, relax_factor.
+      apply Rmult_le_reg_r with (phimax n + 2 * kap); [lra|].
+      replace (phimax n / (phimax n + 2 * kap) * (phi n j + 2 * K j) * (phimax n + 2 * kap))
+        with (phimax n * (phi n j + 2 * K j)) by (field; lra).
+      nra. }
+    assert (C * phi n j <= C * (rho * (phi n j + 2 * K j))) by (apply Rmult_le_compat_l; assumption).
+    lra. }
+  intros j Hj.
+  pose proof (step_lower n Hn K Rr W 0 HKn SW 0 (Rle_refl 0) HR j Hj) as HW. unfold W in HW. lra.
+Qed.
+Lemma phi_ge_first n j : (1 <= j <= n)%nat -> 2 * INR n <= phi n j.
+Proof.
+  intros [H1 H2]. unfold phi. apply le_INR in H1. apply le_INR in H2. simpl in H1. nra.
+Qed.
